@@ -736,6 +736,15 @@ func (c *FnCtx) execReturn(x *ssa.Return, st *State, reach Term) {
 		c.curPos = x.Pos()
 		c.oblige("post", fmt.Sprintf("%d@ret%d", i+1, c.retN), reach, tv.t, cl.Text)
 	}
+	for i, cl := range c.spec.Checks {
+		tv, err := c.evalSpec(cl.E, env)
+		if err != nil {
+			c.abort("checks %d: %v", i+1, err)
+			return
+		}
+		c.curPos = x.Pos()
+		c.oblige("check", fmt.Sprintf("%d@ret%d", i+1, c.retN), reach, tv.t, cl.Text)
+	}
 	// frame: heaps not mentioned in modifies are unchanged for pre-existing objects
 	c.checkFrame(st, reach, env)
 }
@@ -780,7 +789,9 @@ func (c *FnCtx) havocClosureWrites(common *ssa.CallCommon, st *State) {
 		if s, ok := c.g.heapSorts[k]; ok {
 			c.heap(c.entry, k, s)
 			st.heaps[k] = c.fresh("hv_"+k, s)
+			c.havocState = st
 			c.heapWellTyped(k, st.heaps[k])
+			c.havocState = nil
 		}
 	}
 }
